@@ -230,6 +230,7 @@ class AbortRegistered(ConnSpec):
     from _added and the cache; every other registered object that is in the cache becomes a ghost
     (so that it shows its last committed state on next access); nothing else changes"""
     func = CONN + '._abort'
+    props = ('C11', 'C03')
     cases = ('plain', 'disowning-given')
 
     def setup(self, c, case=None):
@@ -286,6 +287,11 @@ class AbortRegistered(ConnSpec):
                 sel(cache0['dom'], o), z3.Not(gone(o))))),
             ('maps-otherwise-untouched', z3.And(cache1['val'] == cache0['val'],
                                                 added1['val'] == added0['val'])),
+            # _abort also runs for savepoint rollbacks: what the transaction declared it depends on stays declared
+            # (C03: "the same holds for objects a transaction declared it depends on being current")
+            ('declared-read-dependencies-kept', z3.And(
+                c.obj(w.readCurrent).f['dom'] == E.old[w.readCurrent.id]['dom'],
+                c.obj(w.readCurrent).f['val'] == E.old[w.readCurrent.id]['val'])),
         ]
 
     @property
@@ -1282,3 +1288,77 @@ SPECS = [InvalidateCreating, TpcCleanup, AbortRegistered, Abort, TpcAbort, TpcFi
          AbortSavepoint]
 VARIANTS = [CommitSavepointBody]
 INLINE = [CONN + '.new_oid']
+
+# ======================================================================================
+class ResetCache(ConnSpec):
+    """Connection._resetCache (run at the next open() after ZODB.Connection.resetCaches()): the connection gets a
+    new EMPTY cache of the same size, and its ObjectReader - which resolves every reference found in a loaded
+    record through ITS cache attribute - is switched to the same new cache.  CACHE-SHARED is what makes
+    "one in-memory object per id per connection" (C14) hold for objects reached by get() and by reference."""
+    func = CONN + '._resetCache'
+    props = ('C14',)
+    cases = ('reader-present', 'no-reader')
+
+    def requires(self, c, E):
+        return []
+
+    def setup(self, c, case=None):
+        w = CM.mk_conn(c)
+        co = c.obj(w.cache)
+        co.f['cache_size'] = c.fresh_int('cache_size')
+        co.f['cache_size_bytes'] = c.fresh_int('cache_size_bytes')
+        if case == 'reader-present':
+            rd = inst(c, 'ZODB.serialize:ObjectReader', _conn=w.self, _cache=w.cache,
+                      _factory=c.fresh_opaque('factory'))
+            c.obj(w.self).f['_reader'] = rd
+            c.ghost['reader'] = rd
+        c.obj(w.self).f['_reset_counter'] = c.fresh_int('_reset_counter')
+        return {'self': w.self}
+
+    def hooks(self, c):
+        hk = ConnSpec.hooks(self, c)
+
+        def mk(cc, interp, args, kwargs, node):
+            w = world(cc)
+            n = prims.new_map(cc, 'bytes8', 'pobj', 'new_cache')
+            o = cc.obj(n)
+            o.kind = 'pcache'
+            o.meta['world'] = w
+            o.f['dom'] = z3.K(I, z3.BoolVal(False))
+            o.f['cache_size'], o.f['cache_size_bytes'] = args[1], args[2]
+            cc.event('new-cache', n.id, args[0])
+            return n
+        hk['prim:persistent.PickleCache'] = mk
+        return hk
+
+    def modifies(self, c, E):
+        w = world(c)
+        m = {(w.self.id, '_cache'), (w.self.id, '_reset_counter')}
+        if 'reader' in c.ghost:
+            m.add((c.ghost['reader'].id, '_cache'))
+        return m
+
+    def outcomes(self, c, E):
+        w = world(c)
+        old = c.obj(w.cache).f
+
+        def post(c, E, r):
+            made = [e for e in c.events if e[0] == 'new-cache']
+            cur = c.obj(w.self).f['_cache']
+            fresh = isinstance(cur, VRef) and len(made) == 1 and cur.id == made[0][1] and cur.id != w.cache.id
+            out = [('connection-gets-one-new-empty-cache', fresh),
+                   ('new-cache-belongs-to-this-connection',
+                    bool(made) and isinstance(made[0][2], VRef) and made[0][2].id == w.self.id)]
+            if fresh:
+                n = c.obj(cur).f
+                out.append(('same-size-limits', z3.And(n['cache_size'].t == old['cache_size'].t,
+                                                       n['cache_size_bytes'].t == old['cache_size_bytes'].t)))
+            if 'reader' in c.ghost:
+                rc = c.obj(c.ghost['reader']).f['_cache']
+                out.append(('CACHE-SHARED.reader-resolves-references-through-the-connection-cache',
+                            isinstance(rc, VRef) and isinstance(cur, VRef) and rc.id == cur.id))
+            return out
+        return [Outcome('ok', result=lambda cc, E: NONE, post=post)]
+
+
+SPECS.append(ResetCache)
